@@ -407,8 +407,7 @@ func (s *ser) expr(e ast.Expression) string {
 			// the model writes a mutated receiver back only into a variable; receivers that are paths
 			// into containers (`a[0].m()`, `self.s.m()`) are outside the fragment
 			switch inv.Expression.(type) {
-			case *ast.IdentifierExpression, *ast.InvocationExpression:
-			default:
+			case *ast.MemberExpression, *ast.IndexExpression:
 				oof("method-receiver-path")
 			}
 			head := "mcall"
